@@ -8,4 +8,4 @@ Extraction "../ocaml/c14/model.ml" util_add util_mul util_divmod Z.of_N block_si
   sr_open sr_read sr_close read_session write_file_v2 write_file_v1
   v2_payload_size crc_offsets file_payload_checksum
   is_shrunk shrink empty_lru_session
-  sv_add sv_validate validate_stream file_body payload_checksum.
+  sv_add sv_validate validate_stream file_body payload_checksum snapshot_validate.
